@@ -112,6 +112,21 @@ class VarsOnly:
         pass
 
 
+@dataclasses.dataclass
+class DCMapNames:
+    """fields named like the mapping API, with class-level defaults (so the names are attributes of the class)"""
+    items: typing.Any = ()
+    keys: typing.Any = None
+    values: typing.Any = 0
+
+
+class SlotsMapNames:
+    __slots__ = ("items", "get")
+
+    def __init__(self):
+        pass
+
+
 class SlotsAnn:
     """annotated and slotted: the annotations name the fields"""
     __slots__ = ("x", "y")
@@ -183,9 +198,9 @@ def case(draw):
         kind = draw(st.sampled_from(["dict", "OrderedDict", "MappingProxyType", "CustomMapping"]))
         return {"cat": cat, "kind": kind, "content": list(d.items())}
     if cat == "structured":
-        kind = draw(st.sampled_from(["DC", "DCFrozen", "DCSlots", "Plain", "SlotsOnly", "VarsOnly", "SlotsAnn", "SlotsAnnSub", "SlotsReordered", "DCSub"]))
+        kind = draw(st.sampled_from(["DC", "DCFrozen", "DCSlots", "Plain", "SlotsOnly", "VarsOnly", "SlotsAnn", "SlotsAnnSub", "SlotsReordered", "DCSub", "DCMapNames", "SlotsMapNames"]))
         n = {"DC": 3, "DCFrozen": 2, "DCSlots": 2, "Plain": 3, "SlotsOnly": 3, "VarsOnly": draw(st.integers(0, 3)),
-             "SlotsAnn": 2, "SlotsAnnSub": 3, "SlotsReordered": 2, "DCSub": 3}[kind]
+             "SlotsAnn": 2, "SlotsAnnSub": 3, "SlotsReordered": 2, "DCSub": 3, "DCMapNames": 3, "SlotsMapNames": 2}[kind]
         vals = [draw(st.one_of(two_elem, anyval)) for _ in range(n)]
         return {"cat": cat, "kind": kind, "content": vals}
     if cat == "namedtuple":
@@ -253,6 +268,13 @@ def build(c):
             for n_, val in zip(names, v):
                 setattr(x, n_, val)
             pairs = list(zip(names, v))
+        elif kind == "DCMapNames":
+            x = DCMapNames(v[0], v[1], v[2])
+            pairs = [("items", v[0]), ("keys", v[1]), ("values", v[2])]
+        elif kind == "SlotsMapNames":
+            x = SlotsMapNames()
+            x.items, x.get = v
+            pairs = [("items", v[0]), ("get", v[1])]
         elif kind == "DCSub":
             x = DCSub(v[0], v[1], third=v[2])
             pairs = [("first", v[0]), ("second", v[1]), ("third", v[2])]
@@ -302,7 +324,7 @@ def build(c):
 def nontrivial(c, x):
     if c["cat"] == "empty" or c["kind"] in ("generator", "iter", "map"):
         return True
-    if c["cat"] == "namedtuple" or c["kind"] in ("DC", "Plain", "SlotsOnly", "VarsOnly", "SlotsAnn", "SlotsAnnSub", "SlotsReordered", "DCSub"):
+    if c["cat"] == "namedtuple" or c["kind"] in ("DC", "Plain", "SlotsOnly", "VarsOnly", "SlotsAnn", "SlotsAnnSub", "SlotsReordered", "DCSub", "DCMapNames", "SlotsMapNames"):
         return True
     content = c["content"]
     if c["cat"] in ("pairs", "mixed") and content:
